@@ -20,7 +20,7 @@ LEVEL_TEXT = ('static analysis: (D1) do_target interpreted on symbolic baits: wo
               '2*INSERT_SIZE = 500, pads the targets by 500 before subtracting them, subdivides by (average, minimum) and names every bin '
               'Antitarget; the default minimum is 2*int(avg*2^MIN_REF_COVERAGE) (constants folded from params.py); (D2b) guess_chromosome_regions'
               " on literal targets (chr2 before chr10): one row per chromosome, in table order, ending at that chromosome's own last target; (D3)"
-              " the padded targets overlap by construction: subtract()'s non-nested-subtrahend precondition is established (rule of C06-D1), and "
+              " the padded targets overlap by construction: subtract() is decided on literal tables with nested, overlapping and unsorted subtrahends (rule of C06-D1b), and "
               'merge() itself groups by the stated predicate and leaves nothing unmerged on its fast path (rules of C06-D3 / D3b), and subtract()'
               ' itself is exact on literal tables, keeping the accessible regions of untargeted contigs whole (C06-D1b); (D4) a region is binned '
               '<=> span >= minimum, pieces chain from start to end (rule of C06-D5); (D5) drop_noncanonical_contigs keeps an accessible contig '
@@ -217,13 +217,12 @@ def d5(chk, prog):
 def run(chk):
     prog = chk.prog
     chk.trust("Python grammar via ast", "re: the module-level patterns are compiled and matched by the real `re` engine on constant strings (no repository code runs)",
-              "merge()'s slow path (_merge_overlapping over the groups) is trusted beyond its grouping predicate")
+              "merge() / flatten() are interpreted whole on literal tables (C06-D3b)")
     d1(chk, prog)
     d2(chk, prog)
     d2b(chk, prog)
     C06.d4(chk, prog)            # the margins themselves: resize_ranges moves both ends by the amount asked, clipped, on a copy -- the caller's targets / access table keep their coordinates (C06-D4 rule)
-    chk.clause("D3", "the padded targets may overlap or nest: subtract()'s precondition is established (C06-D1 rule)")
-    C06.d1(chk, prog)
+    chk.clause("D3", "the padded targets may overlap or nest: subtract() on literal tables (C06-D1b rule)")
     C06.d1b(chk, prog)          # the subtraction itself on literal tables (targets missing from a contig leave its accessible regions whole)
     C06.d3b(chk, prog)           # ... and merge() itself leaves nothing unmerged on its fast path / groups by the stated predicate (C06-D3, D3b)
     C06.d3(chk, prog)
